@@ -34,6 +34,27 @@ theorem AppliedWrites.consecutive {h h' : Nat} {ws : List SW} (a : AppliedWrites
     simp only [List.filterMap_cons, i1, i2, i3, List.map_cons, List.length_cons, i4]
     refine ⟨trivial, trivial, trivial, by omega⟩
 
+/-- the order of the writes of a step: the `i`-th applied block contributes, at positions `3i, 3i+1, 3i+2`, the
+save of the proposer's block of height `h+1+i`, then the state after that height, then the chain height -/
+theorem AppliedWrites.order {h h' : Nat} {ws : List SW} (a : AppliedWrites c ch h ws h') (i : Nat) (hi : i < h' - h) :
+    ∃ b sb, ch (h + 1 + i) = some b ∧ SameBlock b sb ∧
+      ws[3 * i]? = some (.saveBlock (h + 1 + i) sb) ∧
+      ws[3 * i + 1]? = some (.updateState (stateAt c ch (h + 1 + i))) ∧
+      ws[3 * i + 2]? = some (.setHeight (h + 1 + i)) := by
+  induction a generalizing i with
+  | nil => omega
+  | @cons h h' ws b sb hb hsb a ih =>
+    match i with
+    | 0 => exact ⟨b, sb, hb, hsb, rfl, rfl, rfl⟩
+    | j + 1 =>
+      obtain ⟨b', sb', x1, x2, x3, x4, x5⟩ := ih j (by omega)
+      have e : h + 1 + (j + 1) = h + 1 + 1 + j := by omega
+      have sh : ∀ (w1 w2 w3 : SW) (l : List SW) (m : Nat), (w1 :: w2 :: w3 :: l)[m + 3]? = l[m]? := by
+        intros; rfl
+      rw [e, show 3 * (j + 1) = 3 * j + 3 by omega, show 3 * j + 3 + 1 = (3 * j + 1) + 3 by omega,
+        show 3 * j + 3 + 2 = (3 * j + 2) + 3 by omega, sh, sh, sh]
+      exact ⟨b', sb', x1, x2, x3, x4, x5⟩
+
 /-- a step leaves every block at or below the old chain height untouched -/
 theorem AppliedWrites.keeps {h h' : Nat} {ws : List SW} (a : AppliedWrites c ch h ws h') (s : Store)
     (k : Nat) (hk : k ≤ h) : (s.applyAll ws).getBlock k = s.getBlock k := by
@@ -41,8 +62,7 @@ theorem AppliedWrites.keeps {h h' : Nat} {ws : List SW} (a : AppliedWrites c ch 
   | nil => rfl
   | @cons h h' ws b sb _ _ a ih =>
     simp only [Store.applyAll, List.foldl_cons] at ih ⊢
-    rw [ih _ (by omega), getBlock_setHeight, getBlock_saveBlock_other _ _ _ _ (by omega)]
-    rfl
+    rw [ih _ (by omega), getBlock_setHeight, getBlock_updateState, getBlock_saveBlock_other _ _ _ _ (by omega)]
 
 /-! ## runs -/
 
